@@ -236,6 +236,14 @@ func (p *pathRun) symBinop(fr *frame, op token.Token, t types.Type, x, y value) 
 		}
 	}
 	b := p.bvOf(y)
+	// comparisons of constant-leaf ite trees (Cmp/Sign results) with constants are
+	// pushed to the leaves, so the condition stays in the integer theory
+	switch op {
+	case token.EQL, token.NEQ, token.LSS, token.LEQ, token.GTR, token.GEQ:
+		if (constIteTree(a) && b.IsConst() || constIteTree(b) && a.IsConst()) && !(a.IsConst() && b.IsConst()) {
+			return normBool(p.pushCmp(op, signed, a, b))
+		}
+	}
 	switch op {
 	case token.ADD:
 		return normInt(k, c.BVBin("bvadd", a, b))
@@ -281,6 +289,35 @@ func (p *pathRun) symBinop(fr *frame, op token.Token, t types.Type, x, y value) 
 		return normBool(c.BVCmp(pre+suf, a, b))
 	}
 	panic(unsupported(fmt.Sprintf("symBinop: op %s", op)))
+}
+
+func constIteTree(t *smt.Term) bool {
+	if t.IsConst() {
+		return true
+	}
+	return t.Op == "ite" && constIteTree(t.Args[1]) && constIteTree(t.Args[2])
+}
+
+func (p *pathRun) pushCmp(op token.Token, signed bool, a, b *smt.Term) *smt.Term {
+	c := p.ctx
+	if a.Op == "ite" {
+		return c.Ite(a.Args[0], p.pushCmp(op, signed, a.Args[1], b), p.pushCmp(op, signed, a.Args[2], b))
+	}
+	if b.Op == "ite" {
+		return c.Ite(b.Args[0], p.pushCmp(op, signed, a, b.Args[1]), p.pushCmp(op, signed, a, b.Args[2]))
+	}
+	switch op {
+	case token.EQL:
+		return c.Eq(a, b)
+	case token.NEQ:
+		return c.Not(c.Eq(a, b))
+	}
+	pre := "bvu"
+	if signed {
+		pre = "bvs"
+	}
+	suf := map[token.Token]string{token.LSS: "lt", token.LEQ: "le", token.GTR: "gt", token.GEQ: "ge"}[op]
+	return c.BVCmp(pre+suf, a, b)
 }
 
 func (p *pathRun) symUnop(op token.Token, x value) value {
